@@ -1982,6 +1982,7 @@ class Exec:
         res = ArrayVal((ln,), get, dtype_of_value(probe))
         if getattr(itv, 'src', None) is not None:
             res.src = itv.src            # element j still stems from source position src(j) of the original sequence
+            res.is_list = True           # a python list: kept as an immutable value (not turned into a numpy buffer on assignment)
         return res
 
     expr_GeneratorExp = expr_ListComp
